@@ -41,7 +41,9 @@ def budget(tier):
 def manifest(draw):
     nsrc = draw(st.integers(1, 4))
     sources = ["s%d.c" % i for i in range(nsrc)]
-    headers = ["h%d.h" % i for i in range(draw(st.integers(0, 2)))]
+    # header names that need Makefile escaping in the depfile (blank, '#', backslash) as well as plain ones
+    headers = [draw(st.sampled_from(["h%d.h", "h%d.h", "h %d.h", "h#%d.h", "h\\%d.h"])) % i
+               for i in range(draw(st.integers(0, 2)))]
     text = {}
     for s in sources:
         body = "src-%d\n" % draw(st.integers(0, 3))
@@ -81,6 +83,12 @@ def manifest(draw):
     return {"edges": edges, "aliases": aliases, "sources": text, "headers": headers}
 
 
+def plain(names):
+    """names that may be declared in the manifest and on a command line without quoting (the oddly named
+    headers are reached through depfiles only)"""
+    return [n for n in names if not any(ch in n for ch in " #\\")]
+
+
 @st.composite
 def case(draw):
     m = draw(manifest())
@@ -106,7 +114,7 @@ def case(draw):
             ops.append({"op": "manifest", "edit": {"k": "salt", "edge": e["name"], "salt": e["salt"]}})
         elif k == "add-edge":
             extra[0] += 1
-            pool = srcs + outs
+            pool = plain(srcs) + outs
             ins = draw(st.permutations(pool))[:draw(st.integers(0, min(2, len(pool))))]
             e = {"name": "X%d" % extra[0], "ins": ins, "implicit": [], "orderonly": [], "outs": ["x%d_0" % extra[0]],
                  "salt": "x", "depfile": False, "restat": False, "pool": False, "rsp": False}
@@ -121,7 +129,7 @@ def case(draw):
         elif k == "rewire" and [e for e in cur["edges"] if not e.get("gen")]:
             e = draw(st.sampled_from([e for e in cur["edges"] if not e.get("gen")]))
             idx = cur["edges"].index(e)
-            before = srcs + [o for d in cur["edges"][:idx] for o in d["outs"]]
+            before = plain(srcs) + [o for d in cur["edges"][:idx] for o in d["outs"]]
             cand = [x for x in before if x not in e["ins"] + e["implicit"] + e["orderonly"] + e["outs"]]
             if cand:
                 new = draw(st.sampled_from(cand))
